@@ -577,7 +577,73 @@ example : (run exP exClient (exServer .noClientCert)
 
 end Examples
 
--- the hypotheses are satisfiable: the ideal primitives are unforgeable ---------------------------------------------
+-- the hypotheses are satisfiable: the ideal primitives (the ones the driver runs the model with) are binding and
+-- unforgeable, so the theorems above are not vacuous, and they hold outright for the executed model ---------------
+
+theorem serNats_append_inj (a b x y : List Nat) (h : serNats a ++ x = serNats b ++ y) : a = b ∧ x = y := by
+  simp only [serNats, List.cons_append, List.cons.injEq] at h
+  exact List.append_inj h.2 h.1
+
+theorem ser_ne_nil (m : Msg) : m.ser ≠ [] := by cases m <;> simp [Msg.ser]
+
+theorem ser_append_inj (m m' : Msg) (x y : List Nat) (h : m.ser ++ x = m'.ser ++ y) : m = m' ∧ x = y := by
+  cases m <;> cases m' <;> simp only [Msg.ser, List.cons_append, List.nil_append, List.append_assoc, List.cons.injEq] at h <;>
+    first
+    | (exact absurd h.1 (by decide))
+    | skip
+  · rename_i a b
+    obtain ⟨_, h1, h2, h3, h4⟩ := h
+    obtain ⟨e1, h5⟩ := serNats_append_inj _ _ _ _ h4
+    obtain ⟨e2, h6⟩ := serNats_append_inj _ _ _ _ h5
+    simp only [List.cons.injEq] at h6
+    cases a; cases b; simp_all
+  · rename_i a b
+    cases a; cases b; simp_all
+  all_goals first
+    | (obtain ⟨e, f⟩ := serNats_append_inj _ _ _ _ h.2; subst e; exact ⟨rfl, f⟩)
+    | simp_all
+
+theorem ideal_hash_inj (t t' : List Msg) (h : t.flatMap Msg.ser = t'.flatMap Msg.ser) : t = t' := by
+  induction t generalizing t' with
+  | nil =>
+    cases t' with
+    | nil => rfl
+    | cons m ms =>
+      simp only [List.flatMap_nil, List.flatMap_cons] at h
+      have := ser_ne_nil m
+      cases hm : m.ser with
+      | nil => exact absurd hm this
+      | cons a as => rw [hm] at h; simp at h
+  | cons m ms ih =>
+    cases t' with
+    | nil =>
+      simp only [List.flatMap_nil, List.flatMap_cons] at h
+      have := ser_ne_nil m
+      cases hm : m.ser with
+      | nil => exact absurd hm this
+      | cons a as => rw [hm] at h; simp at h
+    | cons m' ms' =>
+      simp only [List.flatMap_cons] at h
+      obtain ⟨e, f⟩ := ser_append_inj _ _ _ _ h
+      rw [e, ih ms' f]
+
+theorem ideal_binding (t : List (Nat × PCert)) : Binding (ideal t) where
+  prf_inj := by
+    intro m m' r d d' h
+    simp only [ideal, List.cons_append, List.cons.injEq, true_and] at h
+    exact serNats_append_inj _ _ _ _ h
+  hash_inj := by
+    intro a b h
+    exact ideal_hash_inj a b h
+
+/-- for the executed model (ideal primitives) no hypothesis about the primitives is left: whatever is rewritten in
+    transit, short of forging a Finished, a client that completes holds the server's transcript -/
+theorem run_never_diverges_ideal (t : List (Nat × PCert)) (c : Client) (s : Server) (w : Wire)
+    (hfin : ∀ x, w.finS x = x ∨ w.finS x = none) (hdone : (run (ideal t) c s w).clientDone = true) :
+    ∃ cv sv, (run (ideal t) c s w).cview = some cv ∧ (run (ideal t) c s w).sview = some sv ∧
+      clientTranscript (ideal t) c cv = serverTranscript (ideal t) s sv :=
+  run_never_diverges (ideal t) (ideal_binding t) c s w hfin hdone
+
 
 theorem ideal_unforgeable (t : List (Nat × PCert)) : Unforgeable (ideal t) := by
   intro k k' m m' h
